@@ -172,6 +172,32 @@ func runC14(t *testing.T, sched simrt.Schedule, prog c14Prog) ([]Violation, RunS
 		}
 		w.runPhase(fin)
 		w.settle()
+		// A gRPC session whose write loop has ended (queue overflow, stop request) is torn down only when
+		// its read loop returns from Recv, i.e. at the client's next frame or disconnect. A client that
+		// neither sends nor hangs up is outside the server's control: supply the hang-up, then check.
+		zombies := map[string]bool{}
+		globals.hub.topics.Range(func(k, v any) bool {
+			for s := range v.(*Topic).sessions {
+				if s.proto == GRPC && s.grpcnode == nil && atomic.LoadInt32(&s.terminating) == 0 {
+					zombies[s.remoteAddr] = true
+				}
+			}
+			return true
+		})
+		for _, s := range globals.sessionStore.sessCache {
+			if s.proto == GRPC && s.grpcnode == nil && atomic.LoadInt32(&s.terminating) == 0 {
+				zombies[s.remoteAddr] = true
+			}
+		}
+		if len(zombies) > 0 {
+			for _, c := range w.Clients {
+				if c.Transport != TransportLP && c.Connected && zombies[fmt.Sprintf("10.0.0.%d:%d", 1+c.Idx, 1000+c.Conn)] {
+					simrt.Probe("c14.grpc_write_loop_gone_client_hangs_up")
+					c.disconnect()
+				}
+			}
+			w.settle()
+		}
 		overlap = w.rt.Probes["fault.disconnect"] + w.rt.Probes["fault.slow_consumer"] + w.rt.Probes["c14.evicted"]
 		// topics whose owner / participant deleted the account during the run
 		killed := map[string]bool{}
@@ -192,7 +218,7 @@ func runC14(t *testing.T, sched simrt.Schedule, prog c14Prog) ([]Violation, RunS
 			}
 		}
 		for _, v := range c14Oracle(w, home) {
-			if strings.HasPrefix(v.Key, "unanswered sub") || strings.HasPrefix(v.Key, "unanswered leave") || strings.HasPrefix(v.Key, "hang ") {
+			if strings.HasPrefix(v.Key, "unanswered sub") || strings.HasPrefix(v.Key, "unanswered leave") || strings.HasPrefix(v.Key, "unanswered del") || strings.HasPrefix(v.Key, "hang ") {
 				for name := range killed {
 					if strings.Contains(v.Text, name) || strings.Contains(v.Text, types.GrpToChn(name)) {
 						v.Key = "request-forwarded-to-topic-killed-by-account-deletion"
@@ -200,6 +226,24 @@ func runC14(t *testing.T, sched simrt.Schedule, prog c14Prog) ([]Violation, RunS
 				}
 			}
 			out = append(out, v)
+		}
+		// a session whose {sub}/{leave} was swallowed that way never gets its in-flight slot back
+		// (capacity 1): its read loop blocks in boundedWaitGroup.Add on the next {sub}. Same finding.
+		for i := range out {
+			if out[i].Key != "request-forwarded-to-topic-killed-by-account-deletion" {
+				continue
+			}
+			var ci int
+			if k := strings.Index(out[i].Text, " of client "); k >= 0 {
+				if _, err := fmt.Sscanf(out[i].Text[k:], " of client %d", &ci); err == nil {
+					pfx := fmt.Sprintf("hang client%d.MessageLoop@sessionstore.go:", ci)
+					for j := range out {
+						if strings.HasPrefix(out[j].Key, pfx) {
+							out[j].Key = "request-forwarded-to-topic-killed-by-account-deletion"
+						}
+					}
+				}
+			}
 		}
 		return out
 	})
